@@ -59,7 +59,7 @@ def stepOpH (sys : Sys) (op : Json) : Sys × Json :=
   | "noop" => (sys, okJ (Json.bool true))
   | _ => stepOp sys op
 
-def drvSem (kind : Kind) : LocSem where
+def drvSemBase (kind : Kind) : LocSem where
   L := Except String Loc
   S := DStore
   Op := Json
@@ -94,6 +94,12 @@ def drvSem (kind : Kind) : LocSem where
         | _ => none)
     | .error _ => none
 
+/-- the body of `System.ClearLocation` = `Location.Clear`, then the `createdAt` marker is set again if it was there -/
+def isClearOp (op : Json) : Bool := jstr op "op" == "clear"
+
+/-- the location semantics of the requests the harness issues through the System -/
+def drvSem (kind : Kind) : LocSem := keepMark (drvSemBase kind) isClearOp
+
 def parseCfg (c : Json) : Cfg :=
   let ttl := match jget c "ttl" with
     | .str "never" => TTL.never
@@ -117,11 +123,6 @@ def reqOf (k : Kind) (op : Json) : Req (drvSem k) :=
   | "create" => .create n
   | "peek" => .peek n
   | _ => .api n op
-
-/-- syntactic over-approximation of "erases the createdAt marker" (the complement of `KeepsMarker`) -/
-def erasesMarker (op : Json) : Bool :=
-  let o := jstr op "op"
-  o == "clear" || ((o == "remFact" || o == "remRule") && (jstr op "id" == "" || jstr op "id" == markerId))
 
 /-- Clock reconstruction. The harness brackets every request by two clock readings `t0 ≤ t1`; the code reads the
 clock somewhere in between, once when the entry is created (`Expires`) and once in `Release`. The model is run with
@@ -153,35 +154,37 @@ of loads and whether the name is in the cache table afterwards -/
 def handleC17Sys (c : Json) : Json :=
   let k := kindOf c
   let cfg := parseCfg c
-  let step := fun (acc : SysSt (drvSem k) × DSt (drvSem k) × List Json × Bool × List (String × Life) × Nat) (op : Json) =>
-    let (st, d, outs, frag, lives, idx) := acc
+  let step := fun (acc : SysSt (drvSem k) × DSt (drvSem k) × List Json × List (String × Life) × Nat) (op : Json) =>
+    let (st, d, outs, lives, idx) := acc
     let n := jstr op "loc"
     match jstr op "op" with
     | "store" => (st, d, outs ++ [(okJ (storeJ (storeOf st.store n))).setObjVal! "loads" (Json.num 0)
                     |>.setObjVal! "cached" (Json.bool (kget st.table n).isSome)
-                    |>.setObjVal! "spec" (okJ (storeJ (dget d n 0).2))], frag, lives, idx + 1)
+                    |>.setObjVal! "spec" (okJ (storeJ (dget d n 0).2))], lives, idx + 1)
     | "sleep" => (st, d, outs ++ [(okJ (Json.bool true)).setObjVal! "loads" (Json.num 0)
-                    |>.setObjVal! "cached" (Json.bool (kget st.table n).isSome) |>.setObjVal! "spec" (okJ (Json.bool true))], frag, lives, idx + 1)
-    | o =>
+                    |>.setObjVal! "cached" (Json.bool (kget st.table n).isSome) |>.setObjVal! "spec" (okJ (Json.bool true))], lives, idx + 1)
+    | _ =>
       let r := reqOf k op
       let t0 := jint op "t0"
       let t1 := jint op "t1"
       -- look at the entry right after Open to learn its Expires and whether this request created it
-      let stO := (openE cfg st n (match r with | .api _ _ => true | _ => false) t0).1
+      let stO := (openE cfg st n (reqCheck r) t0).1
       let loaded := stO.loads.length > st.loads.length
       let lives := if loaded then kset lives n { dLo := 0, dHi := t1 - t0, openIdx := idx } else lives
       let (trel, lives) := match kget stO.table n, kget lives n, (jget op "obs").getBool? with
-        | some e, some life, .ok obs => let (t, life') := chooseRel life idx e.expires t0 t1 obs; (t, kset lives n life')
+        | some e, some life, .ok obs =>
+          -- an entry without a Location (the load failed) goes away with its last holder, whatever the clock shows
+          if e.loc.isSome then let (t, life') := chooseRel life idx e.expires t0 t1 obs; (t, kset lives n life') else (t1, lives)
         | _, _, _ => (t1, lives)
       let (st', out) := reqE cfg st r t0 trel
       let (d', sout) := reqD cfg.checkExistence d r t0
-      let frag' := frag && !(cfg.checkExistence && (o == "peek" || erasesMarker op))
       let j := (outJ out).setObjVal! "loads" (Json.num (st'.loads.length - st.loads.length))
                 |>.setObjVal! "cached" (Json.bool (kget st'.table n).isSome)
                 |>.setObjVal! "spec" (outJ sout)
-      (st', d', outs ++ [j], frag', lives, idx + 1)
-  let (_, _, outs, frag, _, _) := (jarr c "ops").foldl step ({}, { base := [] }, [], true, [], 0)
-  Json.mkObj [("outs", Json.arr outs.toArray), ("frag", Json.bool frag)]
+      (st', d', outs ++ [j], lives, idx + 1)
+  let (_, _, outs, _, _) := (jarr c "ops").foldl step ({}, { base := [] }, [], [], 0)
+  -- every history lies inside the fragment of `cache_transparent_seq` (the theorem has no side condition any more)
+  Json.mkObj [("outs", Json.arr outs.toArray), ("frag", Json.bool true)]
 
 /-! kind "c17.proto": the exported protocol driven step by step (Open / Location call / Release per handle) -/
 
@@ -198,8 +201,8 @@ def stepsUntil {k : Kind} (cfg : Cfg) (c : CSt (drvSem k)) (tid : Nat) (now : In
     | some pc => if stop pc then c else stepsUntil cfg (cstep cfg c tid now) tid now stop fuel
     | none => c
 
-def isOpened {k : Kind} : PC (drvSem k) → Bool
-  | .opened _ _ => true
+def isReleasing {k : Kind} : PC (drvSem k) → Bool
+  | .releasing _ _ _ => true
   | .done _ _ => true
   | _ => false
 
@@ -209,10 +212,9 @@ def isFinished {k : Kind} : PC (drvSem k) → Bool
 
 /-- some thread other than `tid` currently holds an instance of `n` -/
 def heldElsewhere {k : Kind} (c : CSt (drvSem k)) (tid : Nat) (n : String) : Bool :=
-  (List.range c.pcs.length).any (fun t => t != tid && (match c.pcs[t]? with
-    | some (.opened r (some _)) => r.name == n
-    | some (.releasing m (some _) _) => m == n
-    | _ => false))
+  (List.range c.pcs.length).any (fun t => t != tid && (match holdsInst c t with
+    | some (m, _) => m == n
+    | none => false))
 
 def handleC17Proto (cj : Json) : Json :=
   let k := kindOf cj
@@ -237,26 +239,31 @@ def handleC17Proto (cj : Json) : Json :=
     match jstr s "t" with
     | "open" =>
       let tid := p.c.pcs.length
-      let r : Req (drvSem k) := if jbool s "check" then .api n (Json.mkObj [("loc", Json.str n), ("op", Json.str "noop")]) else .peek n
+      let chk := jbool s "check"
+      let r : Req (drvSem k) := if chk then .api n (Json.mkObj [("loc", Json.str n), ("op", Json.str "noop")]) else .peek n
       let c0 := { p.c with pcs := p.c.pcs ++ [PC.start r] }
-      let c1 := stepsUntil cfg c0 tid t0 isOpened 4
+      let c1 := cstep cfg c0 tid t0
       let newLoad := c1.loads.length > loads0
       let ml := p.multiLive || (newLoad && heldElsewhere c1 tid n)
+      -- operating the location directly: a checked open of a location that does not carry the marker fails
+      let specOK := !(chk && cfg.checkExistence && !(drvSem k).created (dget p.d n t0).1)
+      let spec := if specOK then okJ (Json.bool true) else errJ "notFound"
+      -- the handle is kept when the open failed: the hold it left behind is dropped by the handle's release
       (match c1.pcs[tid]? with
-       | some (.opened _ (some i)) => fin { p with c := c1, handles := kset p.handles h tid, multiLive := ml } (okJ (Json.num i))
-       | _ => fin { p with c := c1, multiLive := ml } (errJ "notFound"))
+       | some (.opened _ i) => fin { p with c := c1, handles := kset p.handles h tid, multiLive := ml } ((okJ (Json.num i)).setObjVal! "spec" spec)
+       | _ => fin { p with c := c1, handles := kset p.handles h tid, multiLive := ml } ((errJ "notFound").setObjVal! "spec" spec))
     | "op" =>
       (match kget p.handles h with
        | none => fin p (errJ "nohandle")
        | some tid =>
          match p.c.pcs[tid]? with
-         | some (.opened _ (some i)) =>
+         | some (.opened _ i) =>
            let op := (jget s "op").setObjVal! "loc" (Json.str n) |>.setObjVal! "now" (jget s "now")
-           let c0 := { p.c with pcs := setNth p.c.pcs tid (.opened (.api n op) (some i)) }
+           let c0 := { p.c with pcs := setNth p.c.pcs tid (.opened (.api n op) i) }
            let c1 := cstep cfg c0 tid t0
            let out := match c1.pcs[tid]? with | some (.releasing _ _ o) => outJ o | _ => errJ "model:pc"
            -- a holder may call again: go back to `opened`
-           let c2 := { c1 with pcs := setNth c1.pcs tid (.opened (.peek n) (some i)) }
+           let c2 := { c1 with pcs := setNth c1.pcs tid (.opened (.peek n) i) }
            let (d', so) := reqD false p.d (.api n op) t0
            fin { p with c := c2, d := d' } (out.setObjVal! "spec" (outJ so))
          | _ => fin p (errJ "nohandle"))
@@ -268,20 +275,21 @@ def handleC17Proto (cj : Json) : Json :=
          let c0 := { p.c with pcs := p.c.pcs ++ [PC.releasing n none .peeked] }
          fin { p with c := cstep cfg c0 tid t1 } (okJ (Json.bool true))
        | some tid =>
-         let inst := match p.c.pcs[tid]? with | some (.opened _ i) => i | _ => none
-         let c0 := { p.c with pcs := setNth p.c.pcs tid (.releasing n inst .peeked) }
+         let c0 := match p.c.pcs[tid]? with
+           | some (.opened _ i) => { p.c with pcs := setNth p.c.pcs tid (.releasing n (some i) .peeked) }
+           | _ => p.c
          fin { p with c := cstep cfg c0 tid t1, handles := kdel p.handles h } (okJ (Json.bool true)))
     | "req" =>
       let tid := p.c.pcs.length
       let op := (jget s "op").setObjVal! "loc" (Json.str n) |>.setObjVal! "now" (jget s "now")
       let r := reqOf k op
       let c0 := { p.c with pcs := p.c.pcs ++ [PC.start r] }
-      let c1 := stepsUntil cfg c0 tid t0 (fun pc => match pc with | .releasing _ _ _ => true | .done _ _ => true | _ => false) 5
+      let c1 := stepsUntil cfg c0 tid t0 isReleasing 3
       let newLoad := c1.loads.length > loads0
       let ml := p.multiLive || (newLoad && heldElsewhere c1 tid n)
       let c2 := stepsUntil cfg c1 tid t1 isFinished 2
       let out := match c2.pcs[tid]? with | some (.done _ o) => outJ o | _ => errJ "model:pc"
-      let (d', so) := reqD false p.d r t0
+      let (d', so) := reqD cfg.checkExistence p.d r t0
       fin { p with c := c2, d := d', multiLive := ml } (out.setObjVal! "spec" (outJ so))
     | "sleep" => fin p (okJ (Json.bool true))
     | t => fin p (errJ ("unknown step " ++ t))
